@@ -1445,22 +1445,56 @@ def _known_scramble_linear(f):
             and bool(is_collinear(np.array(case["R"], dtype=float))))
 
 
-def _known_early_exit(f):
-    # narrow: mols_align=True on a near-symmetric molecule, the driver raised AssertionError, and the candidate loop (recomputed
-    # per ordering) indeed meets an inexact ordering below the 1e-3 convergence threshold before the exact one
-    case = f.get("case") or {}
-    if not (case.get("kind") == "nearsym" and case.get("mols_align") is True and str(f.get("what", "")).startswith("implementation raised AssertionError")):
-        return False
-    try:
+def _mols_align_true_searches(case):
+    """every B787 call of an oracle / model case that asks for mols_align=True AND searches atom orderings (with a fixed map
+    and no resorting there is a single candidate and nothing to stop early at): (R, C, runiq, cuniq) per such call, recomputed
+    from the recorded case alone.  Kinds whose B787 calls use a fixed map (rigid_fixed, history, molecule / Molecule.align /
+    scramble) or a numeric / False mols_align (mirror, kdriver, unrelated, near_copy) contribute none."""
+    kind = case.get("kind")
+    out = []
+    if kind in ("rigid_perm", "nearsym", "options"):
+        if kind == "nearsym" and case.get("mols_align") is not True:
+            return out
+        if kind == "options" and not (case.get("mols_align") is True and (not case.get("atoms_map") or case.get("run_resorting"))
+                                      and not case.get("mirrored") and not case.get("run_mirror")):
+            return out
         R = np.array(case["R"], dtype=float)
         labels = np.array(case["labels"])
         perm = list(case["perm"])
-        C = apply_recipe(R, np.array(case["shift"]), np.array(case["rot"]), perm, False)
-        cands = candidate_rmsds(R, C, labels, labels[perm], False)
+        out.append((R, apply_recipe(R, np.array(case["shift"]), np.array(case["rot"]), perm, False), labels, labels[perm]))
+    elif kind == "kselect" and case.get("mols_align") is True and not case.get("run_mirror"):
+        out.append((np.array(case["R"], dtype=float), np.array(case["C"], dtype=float), np.array(case["runiq"]), np.array(case["cuniq"])))
+    return out
+
+
+def _known_early_exit(f):
+    # narrow: (1) the observed outcome is the driver's own AssertionError; (2) the case makes a B787 call with mols_align=True
+    # that searches atom orderings; (3) in the candidate loop of that call - RMSDs recomputed per ordering from the recorded
+    # case - the first ordering below the 1e-3 convergence threshold is an INEXACT one (RMSD > 5e-5 A, enough to fail the
+    # driver's 1e-4 self-checks) although an exact ordering (RMSD <= 1e-7) exists; (4) the same call with mols_align=True
+    # indeed raises AssertionError and with mols_align=False recovers the copy (RMSD <= 1e-7).  Any stream / kind.
+    case = f.get("case") or {}
+    what = str(f.get("what", ""))
+    if not isinstance(case, dict) or not ("raised AssertionError" in what or str(case.get("error", "")).startswith("AssertionError")):
+        return False
+    try:
+        from qcelemental.molutil import B787
+        for R, C, runiq, cuniq in _mols_align_true_searches(case):
+            cands = candidate_rmsds(R, C, runiq, cuniq, False)
+            below = [c[1] for c in cands if c[1] < 1.0e-3]
+            if not (below and below[0] > 5.0e-5 and min(c[1] for c in cands) <= 1.0e-7):
+                continue
+            try:
+                B787(C.copy(), R.copy(), cuniq, runiq, verbose=0, atoms_map=False, mols_align=True, algorithm="permutative")
+                continue                                   # (no AssertionError from this call: not this finding)
+            except AssertionError:
+                pass
+            rmsd, sol = B787(C.copy(), R.copy(), cuniq, runiq, verbose=0, atoms_map=False, mols_align=False, algorithm="permutative")
+            if rmsd <= 1.0e-7 and list(sol.align_atoms(cuniq)) == list(runiq):
+                return True
     except Exception:
         return False
-    below = [c[1] for c in cands if c[1] < 1.0e-3]
-    return bool(below) and below[0] > 5.0e-5 and min(c[1] for c in cands) <= 1.0e-7
+    return False
 
 
 KNOWN = {"C12-scramble-selftest-linear": _known_scramble_linear, "C12-mols-align-early-exit": _known_early_exit}
